@@ -56,6 +56,9 @@ func includeCases() []includeCase {
 		add("rule in an included file after a nested Include", eng+"Include sub/outer.conf\n", map[string]string{"sub/outer.conf": "Include deep/inner.conf\n" + rule(1), "sub/deep/inner.conf": noop}, "sub/")
 		add("rule in the nested file", eng+"Include sub/outer.conf\n", map[string]string{"sub/outer.conf": "Include deep/inner.conf\n", "sub/deep/inner.conf": noop + rule(1)}, "sub/deep/")
 		add("rule after a glob Include", eng+"Include sub/*.conf\n"+rule(1), map[string]string{"sub/a.conf": noop, "sub/b.conf": strings.Replace(noop, "id:50", "id:51", 1)}, "")
+		// only `*` makes an Include a pattern: a file whose name holds other glob metacharacters is that file
+		add("rule in an included file whose name holds brackets", eng+"Include sub/inc[1].conf\n", map[string]string{"sub/inc[1].conf": noop + rule(1), "sub/inc1.conf": noop}, "sub/")
+		add("rule in an included file whose name holds a question mark", eng+"Include sub/inc?.conf\n", map[string]string{"sub/inc?.conf": noop + rule(1), "sub/incX.conf": noop}, "sub/")
 		add("rules in parent and child", eng+"Include sub/inc.conf\n"+rule(1), map[string]string{"sub/inc.conf": strings.Replace(rule(2), "deny,status:403", "pass,nolog", 1)}, "")
 	}
 	return out
